@@ -349,6 +349,14 @@ func (g *G) orderStmt() []Stmt {
 		}
 		s.HasDefault, s.DefaultPos, s.Default = true, 2, []Stmt{&ExprStmt{X: g.p()}}
 		return []Stmt{s}
+	case r < 19 && g.R.Intn(2) == 0:
+		// all right-hand values are taken before the first store: the swap idiom
+		g.feat("stmt-swap-elements")
+		i, j := int64(g.R.Intn(3)), int64(g.R.Intn(3))
+		return []Stmt{&Assign{
+			LHS: []Expr{&Index{X: &Name{N: "l"}, I: &IntLit{V: i}}, &Index{X: &Name{N: "l"}, I: &IntLit{V: j}}},
+			RHS: []Expr{&Index{X: &Name{N: "l"}, I: &Call{Fn: "pv", Args: []Expr{&IntLit{V: g.probeID()}, &IntLit{V: j}}}}, &Index{X: &Name{N: "l"}, I: &Call{Fn: "pv", Args: []Expr{&IntLit{V: g.probeID()}, &IntLit{V: i}}}}}},
+			&ExprStmt{X: &Call{Fn: "rd", Args: []Expr{&StrLit{V: "l"}, &Name{N: "l"}}}}}
 	case r < 19:
 		g.feat("stmt-op-assign-index")
 		// the documented exception: x op= e evaluates the operands of x twice
